@@ -56,6 +56,20 @@ theorem C09_handle_persist_iff (calls : List (Method × Headers)) :
     · simp
     · simp [h c hc hf]
 
+/-- the link to `Model/Conn.lean`: there a request's answers are a list of final responses with their `close` flags and
+    `handleOne` computes `respKeep := !(resps.any (·.close))`; that is the handle's flag after those answers, whichever
+    sending methods produced them -/
+theorem C09_handle_matches_conn (calls : List (Method × Headers)) (hfin : ∀ c ∈ calls, c.1.final = true) :
+    (run new calls).keepAlive = !(calls.any fun c => c.2.close) := by
+  rw [C09_handle_flag]
+  have : (calls.any fun c => c.1.final && c.2.close) = (calls.any fun c => c.2.close) := by
+    induction calls with
+    | nil => rfl
+    | cons c cs ih =>
+      simp only [List.any_cons, hfin c (by simp), Bool.true_and]
+      rw [ih (fun x hx => hfin x (by simp [hx]))]
+  simp [this, new]
+
 /-- sticky: once a close was recorded no later call re-opens the connection -/
 theorem C09_handle_sticky (h : RH) (calls : List (Method × Headers)) (hk : h.keepAlive = false) :
     (run h calls).keepAlive = false := by
